@@ -44,6 +44,16 @@ def gen(tier, rng, boost=1):
             for _ in range(n):
                 for src in ("mem", "stream"):
                     ops.append(f"rt.any {archive} {src} {target} {rng.randrange(1, 2 ** 31)}")
+    # chrono fields at every layout threshold of the MsgPack Timestamp extension / as ISO-8601 text; CSV tables whose saved
+    # document is an exact multiple (+-1) of the stream readers' 256-byte chunk
+    for archive in ("mp", "json", "xml", "csv"):
+        for target in (("vchrono",) if archive == "csv" else ("chrono", "vchrono")):
+            for _ in range(2 * n):
+                for src in ("mem", "stream"):
+                    ops.append(f"rt.any {archive} {src} {target} {rng.randrange(1, 2 ** 31)}")
+    for _ in range(4 * n):
+        for src in ("mem", "stream"):
+            ops.append(f"rt.any csv {src} rows256 {rng.randrange(1, 2 ** 31)}")
     ops += gen_c01_jsonxml(tier, rng, boost)
     return ops
 
